@@ -414,6 +414,7 @@ func drive(args []string) int {
 		addAll(total.PerStratum, r.res.PerStratum)
 		addAll(total.Features, r.res.Features)
 		addAll(total.Skips, r.res.Skips)
+		addAll(total.Inconclusive, r.res.Inconclusive)
 		addAll(total.VioByStratum, r.res.VioByStratum)
 		addAll(total.VioByReason, r.res.VioByReason)
 		addAll(total.Known, r.res.Known)
@@ -527,6 +528,9 @@ func drive(args []string) int {
 	if distinct < 2 {
 		missed = append(missed, fmt.Sprintf("distinct_nontrivial=%d", distinct))
 	}
+	if len(total.Inconclusive) > 0 && inconclusive == "" {
+		inconclusive = "cases that could not be judged: " + fmt.Sprint(total.Inconclusive)
+	}
 	if len(missed) > 0 && inconclusive == "" && total.NViolations == 0 {
 		inconclusive = "coverage floor not reached: " + strings.Join(missed, ",")
 	}
@@ -565,6 +569,7 @@ func drive(args []string) int {
 		"worker_processes":    len(runs),
 		"child_deaths":        countDeaths(runs),
 		"verdict":             verdict(total.NViolations, inconclusive),
+		"unjudged_cases":        total.Inconclusive,
 		"violations_by_stratum": total.VioByStratum,
 		"violations_by_reason":  total.VioByReason,
 	}
